@@ -7,7 +7,7 @@ from fx import *
 LEVEL = 'proof'
 RULE = ('cases = (operator form, operand intervals) drawn from one SplitMix64 state: special values, powers of two and '
         'neighbours, subnormals, huge/tiny, point/ulp-wide/relative/straddling/ill-formed intervals, cycling over the 18 operator '
-        'forms + sqrt + constructors + next_float_up/down + max_min; non-trivial = operands finite, well formed and inside the '
+        'forms + sqrt + constructors (from_value_and_error, from_bounds incl. inverted / NaN bounds) + next_float_up/down + max_min; non-trivial = operands finite, well formed and inside the '
         "property's domain (divisor without zero, radicand >= 0); distinct = distinct (op, operand bits)")
 ASSUMPTIONS = [
     'Coq 8.16.1 kernel + vm_compute (no native_compute); Flocq 4.1.0 definitions of binary_float/Bplus/.../Bsucc/Bpred',
@@ -50,6 +50,10 @@ def classify(c, st):
     i, o = vals(c, st)
     op = c['op']
     triv = not in_domain(op, i)
+    if op == 'from_bounds':
+        # constructor (correspondence only): ordered / inverted / NaN bounds, and whether the debug assertion fired
+        kind = 'nan' if (math.isnan(i[0]) or math.isnan(i[1])) else ('ordered' if i[0] <= i[1] else 'inverted')
+        return (op, tuple(c['in'])), True, 'from_bounds:%s:%s' % (kind, 'panic(debug)' if c.get('panicked') else 'ok')
     return (op, tuple(c['in'])), triv, op + (':domain' if not triv else ':outside')
 
 def describe(c, st):
